@@ -8,7 +8,7 @@ Model: receiver `noErrorEofVerify` (second half of `_handle_no_error_eof`), `che
 
 One-step contracts first; then WHOLE RUNS of the receiver model, for every file, segment length,
 position of the late tile (any but the last), header configuration, CRC checksum type, check limit and
-expiry times (unacknowledged mode without closure): `C13_late_data_completes` — Metadata, all tiles
+expiry times (unacknowledged mode, closure requested or not): `C13_late_data_completes` — Metadata, all tiles
 but one, the EOF (no completion), any number of expiries below the limit (each only counts,
 `C13_expiries_below_limit` by induction over the expiry times), the late tile, the next expiry:
 complete, file byte-identical, one successful Transaction-Finished, idle — and
@@ -132,7 +132,7 @@ theorem C13_source_closure_timer_running (env : Source.Env) (s : Source.SrcSt) (
 section WholeRuns
 open Cfdp.Dest Cfdp.C02
 
-/-! ## Whole runs of the receiver: EOF overtakes file data (unacknowledged mode, no closure) -/
+/-! ## Whole runs of the receiver: EOF overtakes file data (unacknowledged mode, with or without closure) -/
 
 /-- the stored content `G` does not have the checksum `crc` announced by the EOF -/
 def MismatchOf (cks : Nat) (G crc : List UInt8) : Prop :=
@@ -141,7 +141,7 @@ def MismatchOf (cks : Nat) (G crc : List UInt8) : Prop :=
 /-- receiver waiting in the check-limit procedure: EOF received, stored content `G`, check timer `tm`,
 `c` expiries so far -/
 structure CheckWait (d : DestSt) (dst : String) (G crc : List UInt8) (rc : RemoteCfg) (t : Tid) (cks : Nat)
-    (tm : Timer) (c : Nat) : Prop where
+    (tm : Timer) (c : Nat) (cl : Bool := false) : Prop where
   hbusy : d.state = .busy
   hstep : d.step = .RECV_FILE_DATA_WITH_CHECK_LIMIT_HANDLING
   hready : d.numReady = 0
@@ -156,7 +156,7 @@ structure CheckWait (d : DestSt) (dst : String) (G crc : List UInt8) (rc : Remot
   htid : d.p.tid = some t
   hrej : d.rejects = []
   hcks : d.p.cksType = cks
-  hclosure : d.p.closure = false
+  hclosure : d.p.closure = cl
   hcancel : d.p.canceled = false
   hmo : d.p.metadataOnly = false
   hfin : d.p.fin = ⟨ccNoError, dcIncomplete, fsRetained, none⟩
@@ -191,11 +191,11 @@ def afterEofWait (env : Env) (d : DestSt) (t : Tid) (crc : List UInt8) (size : N
 checksum: the call does not finish the transaction; the check timer is started, the counter is 0, the
 checksum failure is reported once (ignored), nothing is queued -/
 theorem C13_eof_call_waits (env : Env) (d : DestSt) (dst : String) (G crc : List UInt8) (rc : RemoteCfg) (t : Tid)
-    (cks : Nat) (h : Hdr) (hr : Receiving d dst G rc t cks false) (ha : Admissible env rc h)
+    (cks : Nat) (h : Hdr) (cl : Bool) (hr : Receiving d dst G rc t cks cl) (ha : Admissible env rc h)
     (hmis : MismatchOf cks G crc) (hchk : env.cfg.chkMs ≠ 0)
     (hfh1 : d.faults.lookup ccChecksumFailure = some fhIgnore) (hfh2 : d.faults.lookup ccCheckLimit = some fhCancel) :
     stateMachine env (some (.eof h ccNoError crc G.length none)) d = .ok () (afterEofWait env d t crc G.length) ∧
-    CheckWait (afterEofWait env d t crc G.length) dst G crc rc t cks ⟨env.now, env.cfg.chkMs⟩ 0 := by
+    CheckWait (afterEofWait env d t crc G.length) dst G crc rc t cks ⟨env.now, env.cfg.chkMs⟩ 0 cl := by
   obtain ⟨h1, c, h2, h3⟩ := hmis
   have hnull : Checksum.CksType.ofNat cks ≠ .null := by
     intro hh
@@ -232,10 +232,10 @@ def afterRetry (d : DestSt) (now : Nat) (tm : Timer) (t : Tid) : DestSt :=
 /-- **An expiry below the limit with the data still missing (whole call)**: the counter grows by
 one, the timer restarts, the checksum failure is reported (ignored); nothing else happens -/
 theorem C13_expiry_retry_call (env : Env) (d : DestSt) (dst : String) (G crc : List UInt8) (rc : RemoteCfg)
-    (t : Tid) (cks : Nat) (tm : Timer) (c : Nat) (hr : CheckWait d dst G crc rc t cks tm c)
+    (t : Tid) (cks : Nat) (tm : Timer) (c : Nat) (cl : Bool) (hr : CheckWait d dst G crc rc t cks tm c cl)
     (hmis : MismatchOf cks G crc) (hexp : tm.timedOut env.now = true) (hlim : c + 1 < rc.chkLim) :
     stateMachine env none d = .ok () (afterRetry d env.now tm t) ∧
-    CheckWait (afterRetry d env.now tm t) dst G crc rc t cks ⟨env.now, tm.timeout⟩ (c + 1) := by
+    CheckWait (afterRetry d env.now tm t) dst G crc rc t cks ⟨env.now, tm.timeout⟩ (c + 1) cl := by
   obtain ⟨cc, hm⟩ := mismatch_of d dst G crc cks hr.hname hr.hfile hr.hprog hr.hcks hr.hcrc hr.hmo hmis
   have hcall := C13_expiry_retry env d tm rc cc t hr.htm hr.hrc hexp hm hr.htid hr.hbusy hr.hfh1
     (by rw [hr.hcnt]; exact hlim)
@@ -263,26 +263,27 @@ def checkRounds (cfg : LocalCfg) : List Nat → DestSt → Option DestSt
 /-- **Any number of expiries below the check limit, data still missing**: each one adds one to the
 counter, restarts the timer and reports the checksum failure; file, queue, indications untouched -/
 theorem C13_expiries_below_limit (cfg : LocalCfg) (dst : String) (G crc : List UInt8) (rc : RemoteCfg) (t : Tid)
-    (cks : Nat) (hmis : MismatchOf cks G crc) :
+    (cks : Nat) (cl : Bool) (hmis : MismatchOf cks G crc) :
     ∀ (times : List Nat) (d : DestSt) (tm : Timer) (c : Nat),
-      CheckWait d dst G crc rc t cks tm c → C04.Expiring tm.timeout tm.start times → c + times.length < rc.chkLim →
+      CheckWait d dst G crc rc t cks tm c cl → C04.Expiring tm.timeout tm.start times → c + times.length < rc.chkLim →
       ∃ d', checkRounds cfg times d = some d' ∧
-        CheckWait d' dst G crc rc t cks ⟨C04.lastOr tm.start times, tm.timeout⟩ (c + times.length) ∧
+        CheckWait d' dst G crc rc t cks ⟨C04.lastOr tm.start times, tm.timeout⟩ (c + times.length) cl ∧
         d'.fs = d.fs ∧ d'.inds = d.inds ∧
-        d'.flts = d.flts ++ List.replicate times.length ⟨fhIgnore, t, ccChecksumFailure, G.length⟩ := by
+        d'.flts = d.flts ++ List.replicate times.length ⟨fhIgnore, t, ccChecksumFailure, G.length⟩ ∧
+        d'.p.conf = d.p.conf := by
   intro times
   induction times with
   | nil =>
     intro d tm c hr _ _
-    exact ⟨d, rfl, by simpa [C04.lastOr] using hr, rfl, rfl, by simp⟩
+    exact ⟨d, rfl, by simpa [C04.lastOr] using hr, rfl, rfl, by simp, rfl⟩
   | cons x xs ih =>
     intro d tm c hr hexp hlim
     simp only [C04.Expiring] at hexp
     simp only [List.length_cons] at hlim
-    obtain ⟨hcall, hW⟩ := C13_expiry_retry_call ⟨cfg, x⟩ d dst G crc rc t cks tm c hr hmis
+    obtain ⟨hcall, hW⟩ := C13_expiry_retry_call ⟨cfg, x⟩ d dst G crc rc t cks tm c cl hr hmis
       (by simp [Timer.timedOut]; exact hexp.1) (by omega)
-    obtain ⟨d', hrest, hW', hfs, hin, hfl⟩ := ih (afterRetry d x tm t) ⟨x, tm.timeout⟩ (c + 1) hW hexp.2 (by omega)
-    refine ⟨d', ?_, ?_, ?_, ?_, ?_⟩
+    obtain ⟨d', hrest, hW', hfs, hin, hfl, hcf⟩ := ih (afterRetry d x tm t) ⟨x, tm.timeout⟩ (c + 1) hW hexp.2 (by omega)
+    refine ⟨d', ?_, ?_, ?_, ?_, ?_, ?_⟩
     · simp only [checkRounds, hcall, hrest]
     · have : c + 1 + xs.length = c + (xs.length + 1) := by omega
       simpa [C04.lastOr, this] using hW'
@@ -290,6 +291,7 @@ theorem C13_expiries_below_limit (cfg : LocalCfg) (dst : String) (G crc : List U
     · rw [hin]; rfl
     · rw [hfl]
       simp [afterRetry, hr.hprog, List.replicate_succ]
+    · rw [hcf]; rfl
 
 def fillP (p : Params) (n : Nat) : Params := { p with progress := n }
 
@@ -301,11 +303,11 @@ def afterLate (d : DestSt) (dst : String) (F : List UInt8) (a n : Nat) (env : En
 /-- **The late File Data PDU arrives while the receiver waits** (timer running): it is stored — the
 hole is filled —, nothing else changes; the verification happens at the next expiry -/
 theorem C13_late_tile_call (env : Env) (d : DestSt) (dst : String) (F crc : List UInt8) (a b : Nat)
-    (rc : RemoteCfg) (t : Tid) (cks : Nat) (tm : Timer) (c : Nat) (h : Hdr)
-    (hr : CheckWait d dst (C03.holeFile F a b F.length) crc rc t cks tm c) (ha : Admissible env rc h)
+    (rc : RemoteCfg) (t : Tid) (cks : Nat) (tm : Timer) (c : Nat) (h : Hdr) (cl : Bool)
+    (hr : CheckWait d dst (C03.holeFile F a b F.length) crc rc t cks tm c cl) (ha : Admissible env rc h)
     (hab : a < b) (hb : b ≤ F.length) (hrun : tm.timedOut env.now = false) :
     stateMachine env (some (.fd h a ((F.drop a).take (b - a)))) d = .ok () (afterLate d dst F a (b - a) env t) ∧
-    CheckWait (afterLate d dst F a (b - a) env t) dst F crc rc t cks tm c := by
+    CheckWait (afterLate d dst F a (b - a) env t) dst F crc rc t cks tm c cl := by
   have hlenG := C03.holeFile_length F a b F.length (by omega) hb (Nat.le_refl _)
   have hw := C03.write_fills_hole F a b hab hb
   have hdl : ((F.drop a).take (b - a)).length = b - a := by simp [List.length_take, List.length_drop]; omega
@@ -335,19 +337,21 @@ theorem C13_late_tile_call (env : Env) (d : DestSt) (dst : String) (F crc : List
         hmo := hr.hmo, hfin := hr.hfin, htm := hr.htm, hcnt := hr.hcnt, hfh1 := hr.hfh1, hfh2 := hr.hfh2 }
 
 /-- state after the expiry at which the file was complete: transaction finished, handler idle -/
-def afterSuccess (env : Env) (d : DestSt) (t : Tid) : DestSt :=
+def afterSuccess (env : Env) (d : DestSt) (t : Tid) (cl : Bool := false) : DestSt :=
   { d with state := .idle, step := .IDLE, p := {},
+           queue := if cl then [mkFin d.p.conf ⟨ccNoError, dcComplete, fsRetained, none⟩] else [],
+           numReady := if cl then 1 else 0,
            inds := d.inds ++ (if env.cfg.indFinished
              then [.finished (some t) ⟨ccNoError, dcComplete, fsRetained, none⟩] else []) }
 
 /-- **The expiry after the late data arrived (whole call)**: the checksum matches; the transaction
 completes in that call — Transaction-Finished (No error, Data complete, File retained) —, the handler
-is idle, the file untouched -/
+is idle, the file untouched; with closure requested exactly one Finished PDU with those values is queued -/
 theorem C13_expiry_success_call (env : Env) (d : DestSt) (dst : String) (F crc : List UInt8) (rc : RemoteCfg)
-    (t : Tid) (cks : Nat) (tm : Timer) (c : Nat) (hr : CheckWait d dst F crc rc t cks tm c)
+    (t : Tid) (cks : Nat) (tm : Timer) (c : Nat) (cl : Bool) (hr : CheckWait d dst F crc rc t cks tm c cl)
     (hexp : tm.timedOut env.now = true) (hnull : cks ≠ 15)
     (hok : Checksum.calcChecksum (Checksum.CksType.ofNat cks) F F.length 4096 = .ok crc) :
-    stateMachine env none d = .ok () (afterSuccess env d t) := by
+    stateMachine env none d = .ok () (afterSuccess env d t cl) := by
   have hn : Checksum.CksType.ofNat cks ≠ .null := by
     intro hh
     simp [Checksum.CksType.ofNat] at hh
@@ -359,11 +363,13 @@ theorem C13_expiry_success_call (env : Env) (d : DestSt) (dst : String) (F crc :
   have hcall := C13_expiry_success env d tm rc hr.hbusy hr.hmode hr.htm hr.hrc hexp hm
   unfold stateMachine
   generalize (stateMachineWith env none (stateMachineWith env none (throw Err.recursionError))) = rec
-  cases hf : env.cfg.indFinished <;>
+  have hcl := hr.hclosure
+  cases cl <;> cases hf : env.cfg.indFinished <;>
   msimp [stateMachineWith, hr.hbusy, nonIdleFsm, fsmAdvancementAfterPacketsWereSent, hr.hqueue, hr.hstep,
     fsmFromReceiving, fsmFromWaitingForMetadata, fsmFromCheckLimit, hcall, fsmFromWaitingForMissingData,
     fsmFromTransferCompletion, handleTransferCompletion, noticeOfCompletion, hr.hcancel, hf, getP, emitInd, hr.htid,
-    transmissionMode, hr.hmode, hr.hclosure, resetInternal, fsmFromSendingFinishedPdu, fsmFromWaitingForFinishedAck,
+    transmissionMode, hr.hmode, hcl, resetInternal, fsmFromSendingFinishedPdu, hr.hready, prepareFinishedPdu, addPacket,
+    handleFinishedPduSent, fsmFromWaitingForFinishedAck,
     afterSuccess, hr.hfin]
 
 def limP (p : Params) : Params := { p with fin := { p.fin with cond := ccCheckLimit }, canceled := true }
@@ -376,8 +382,11 @@ def limitSt (d : DestSt) (t : Tid) : DestSt :=
 /-- state after the expiry at which the check limit was reached: the transaction is cancelled with
 Check-limit-reached, reported as incomplete, the handler is idle; with the disposition-on-cancellation
 switch of the remote configuration the incomplete file is deleted -/
-def afterLimit (env : Env) (d : DestSt) (t : Tid) (rc : RemoteCfg) : DestSt :=
+def afterLimit (env : Env) (d : DestSt) (t : Tid) (rc : RemoteCfg) (cl : Bool := false) : DestSt :=
   { d with state := .idle, step := .IDLE, p := {},
+           queue := if cl then [mkFin d.p.conf ⟨ccCheckLimit, dcIncomplete,
+             if rc.disp then fsDiscardedDeliberately else fsRetained, none⟩] else [],
+           numReady := if cl then 1 else 0,
            fs := if rc.disp then (Fs.deleteFile d.fs d.p.fileName).2 else d.fs,
            inds := d.inds ++ (if env.cfg.indFinished
              then [.finished (some t) ⟨ccCheckLimit, dcIncomplete,
@@ -387,11 +396,12 @@ def afterLimit (env : Env) (d : DestSt) (t : Tid) (rc : RemoteCfg) : DestSt :=
 
 /-- **The expiry at which the counter reaches the limit, data still missing (whole call)**:
 Check-limit-reached is declared, the (default) handler cancels the transaction, the user is told
-(condition Check limit reached, Data incomplete), the handler is idle -/
+(condition Check limit reached, Data incomplete), the handler is idle; with closure requested exactly
+one Finished PDU with those values is queued -/
 theorem C13_expiry_limit_call (env : Env) (d : DestSt) (dst : String) (G crc : List UInt8) (rc : RemoteCfg)
-    (t : Tid) (cks : Nat) (tm : Timer) (c : Nat) (hr : CheckWait d dst G crc rc t cks tm c)
+    (t : Tid) (cks : Nat) (tm : Timer) (c : Nat) (cl : Bool) (hr : CheckWait d dst G crc rc t cks tm c cl)
     (hmis : MismatchOf cks G crc) (hexp : tm.timedOut env.now = true) (hlim : c + 1 ≥ rc.chkLim) :
-    stateMachine env none d = .ok () (afterLimit env d t rc) := by
+    stateMachine env none d = .ok () (afterLimit env d t rc cl) := by
   obtain ⟨cc, hm⟩ := mismatch_of d dst G crc cks hr.hname hr.hfile hr.hprog hr.hcks hr.hcrc hr.hmo hmis
   have hcall := C13_expiry_limit env d tm rc cc t hr.htm hr.hrc hexp hm hr.htid hr.hbusy hr.hfh1
     (by rw [hr.hcnt]; exact hlim)
@@ -405,11 +415,13 @@ theorem C13_expiry_limit_call (env : Env) (d : DestSt) (dst : String) (G crc : L
     simp [limitSt, limP, pure, EStateM.pure]
   unfold stateMachine
   generalize (stateMachineWith env none (stateMachineWith env none (throw Err.recursionError))) = rec
-  cases hf : env.cfg.indFinished <;> cases hd : rc.disp <;>
+  have hcl := hr.hclosure
+  cases cl <;> cases hf : env.cfg.indFinished <;> cases hd : rc.disp <;>
   msimp [stateMachineWith, hr.hbusy, nonIdleFsm, fsmAdvancementAfterPacketsWereSent, hr.hqueue, hr.hstep,
     fsmFromReceiving, fsmFromWaitingForMetadata, fsmFromCheckLimit, hboth, limitSt, limP, fsmFromWaitingForMissingData,
     fsmFromTransferCompletion, handleTransferCompletion, noticeOfCompletion, hr.hrc, hd, hf, getP, emitInd, hr.htid,
-    transmissionMode, hr.hmode, hr.hclosure, resetInternal, fsmFromSendingFinishedPdu, fsmFromWaitingForFinishedAck,
+    transmissionMode, hr.hmode, hcl, resetInternal, fsmFromSendingFinishedPdu, hr.hready, prepareFinishedPdu, addPacket,
+    handleFinishedPduSent, fsmFromWaitingForFinishedAck,
     afterLimit, hr.hfin, dcIncomplete, hr.hname]
 
 /-! ### the run up to the EOF: one File Data PDU is late -/
@@ -475,12 +487,12 @@ theorem C13_tiles_behind_hole_unack (env : Env) (h : Hdr) (rc : RemoteCfg) (t : 
       ∃ d', C03.feedSeg env h F seg k m d = some d' ∧
         Receiving d' dst (C03.holeFile F a b (min (m + k * seg) F.length)) rc t cks cl ∧
         (∀ q, q ≠ dst → d'.fs.get q = d.fs.get q) ∧
-        d'.inds.filter isFinished = d.inds.filter isFinished ∧ d'.faults = d.faults := by
+        d'.inds.filter isFinished = d.inds.filter isFinished ∧ d'.faults = d.faults ∧ d'.p.conf = d.p.conf := by
   intro k
   induction k with
   | zero =>
     intro m d hbm hm _ hr
-    exact ⟨d, rfl, by simpa [Nat.min_eq_left hm] using hr, fun _ _ => rfl, rfl, rfl⟩
+    exact ⟨d, rfl, by simpa [Nat.min_eq_left hm] using hr, fun _ _ => rfl, rfl, rfl, rfl⟩
   | succ k ih =>
     intro m d hbm hmle hk hr
     have hmlt : m < F.length := by
@@ -506,8 +518,8 @@ theorem C13_tiles_behind_hole_unack (env : Env) (h : Hdr) (rc : RemoteCfg) (t : 
         rw [h2, Nat.add_mul, Nat.one_mul] at h1
         have : min (m + seg) F.length ≤ m + seg := Nat.min_le_left _ _
         omega
-    obtain ⟨d', hf, hR, hother, hfin, hfa⟩ := ih (min (m + seg) F.length) _ (by omega) (Nat.min_le_right _ _) hk' hr'
-    refine ⟨d', ?_, ?_, ?_, ?_, ?_⟩
+    obtain ⟨d', hf, hR, hother, hfin, hfa, hcf⟩ := ih (min (m + seg) F.length) _ (by omega) (Nat.min_le_right _ _) hk' hr'
+    refine ⟨d', ?_, ?_, ?_, ?_, ?_, ?_⟩
     · simp only [C03.feedSeg, hcall]; exact hf
     · have : min (min (m + seg) F.length + k * seg) F.length = min (m + (k + 1) * seg) F.length := by
         rw [Nat.add_mul, Nat.one_mul]; omega
@@ -519,6 +531,7 @@ theorem C13_tiles_behind_hole_unack (env : Env) (h : Hdr) (rc : RemoteCfg) (t : 
       simp only [afterTile]
       split <;> simp [isFinished]
     · rw [hfa]; rfl
+    · rw [hcf]; rfl
 
 theorem feed_keeps_faults (env : Env) (h : Hdr) (rc : RemoteCfg) (t : Tid) (cks : Nat) (dst : String) (cl : Bool)
     (ha : Admissible env rc h) :
@@ -535,10 +548,10 @@ theorem feed_keeps_faults (env : Env) (h : Hdr) (rc : RemoteCfg) (t : Tid) (cks 
     have := ih (P ++ c) _ d' (fun x hx => hne x (by simp [hx])) hr' (by simpa using hf)
     rw [this]; rfl
 
-/-- **The run up to the EOF with one File Data PDU missing** (unacknowledged mode, no closure): the
+/-- **The run up to the EOF with one File Data PDU missing** (unacknowledged mode, closure flag `cl`): the
 receiver ends in the check-limit procedure with the timer started at the EOF call, counter 0, one
 (ignored) checksum failure reported, no Transaction-Finished indication -/
-theorem C13_run_to_wait (env : Env) (d0 : DestSt) (h : Hdr) (rc : RemoteCfg) (cks : Nat)
+theorem C13_run_to_wait (env : Env) (d0 : DestSt) (h : Hdr) (rc : RemoteCfg) (cks : Nat) (cl : Bool)
     (sname dname : String) (msgs : Option (List Msg)) (F crc : List UInt8)
     (cs1 : List (List UInt8)) (a b seg k : Nat)
     (ha : Admissible env rc h) (hchk : env.cfg.chkMs ≠ 0)
@@ -553,22 +566,23 @@ theorem C13_run_to_wait (env : Env) (d0 : DestSt) (h : Hdr) (rc : RemoteCfg) (ck
     (hkend : F.length ≤ min (b + seg) F.length + k * seg)
     (hmis : MismatchOf cks (C03.holeFile F a b F.length) crc) :
     ∃ d1 d2 d3 d4 d5,
-      stateMachine env (some (.md h false cks F.length (some sname) (some dname) msgs)) d0 = .ok () d1 ∧
+      stateMachine env (some (.md h cl cks F.length (some sname) (some dname) msgs)) d0 = .ok () d1 ∧
       feed env h cs1 0 d1 = some d2 ∧
       stateMachine env (some (.fd h b ((F.drop b).take seg))) d2 = .ok () d3 ∧
       C03.feedSeg env h F seg k (min (b + seg) F.length) d3 = some d4 ∧
       stateMachine env (some (.eof h ccNoError crc F.length none)) d4 = .ok () d5 ∧
-      CheckWait d5 dname (C03.holeFile F a b F.length) crc rc ⟨h.src, h.seq⟩ cks ⟨env.now, env.cfg.chkMs⟩ 0 ∧
+      CheckWait d5 dname (C03.holeFile F a b F.length) crc rc ⟨h.src, h.seq⟩ cks ⟨env.now, env.cfg.chkMs⟩ 0 cl ∧
       (∀ q, q ≠ dname → d5.fs.get q = d0.fs.get q) ∧
       d5.inds.filter isFinished = d0.inds.filter isFinished ∧
-      d5.flts = [⟨fhIgnore, ⟨h.src, h.seq⟩, ccChecksumFailure, F.length⟩] := by
+      d5.flts = [⟨fhIgnore, ⟨h.src, h.seq⟩, ccChecksumFailure, F.length⟩] ∧
+      d5.p.conf = ⟨.toSend, h.mode, h.crc, h.large, h.src, h.dst, h.seq⟩ := by
   have hab : a < b := by omega
-  obtain ⟨hmd, hR1⟩ := C02_metadata env d0 h rc cks F.length sname dname msgs false ha hidle hq hr hrej hfl hnd hok
-  obtain ⟨d2, hfeed, hR2, hother2, hq2, hfl2, hfin2, hcf2⟩ := C02_tiles env h rc _ cks dname false ha cs1 [] _ hne1 hR1
-  have hfa2 := feed_keeps_faults env h rc _ cks dname false ha cs1 [] _ d2 hne1 hR1 hfeed
+  obtain ⟨hmd, hR1⟩ := C02_metadata env d0 h rc cks F.length sname dname msgs cl ha hidle hq hr hrej hfl hnd hok
+  obtain ⟨d2, hfeed, hR2, hother2, hq2, hfl2, hfin2, hcf2⟩ := C02_tiles env h rc _ cks dname cl ha cs1 [] _ hne1 hR1
+  have hfa2 := feed_keeps_faults env h rc _ cks dname cl ha cs1 [] _ d2 hne1 hR1 hfeed
   simp only [List.nil_append, hcs1, List.length_nil] at hfeed hR2
-  obtain ⟨hgap, hR3⟩ := C13_gap_tile_unack env d2 dname F a b seg rc _ cks h false hR2 ha hab hbF hseg
-  obtain ⟨d4, hfs, hR4, hother4, hfin4, hfa4⟩ := C13_tiles_behind_hole_unack env h rc _ cks dname false F a b seg hab
+  obtain ⟨hgap, hR3⟩ := C13_gap_tile_unack env d2 dname F a b seg rc _ cks h cl hR2 ha hab hbF hseg
+  obtain ⟨d4, hfs, hR4, hother4, hfin4, hfa4, hcf4⟩ := C13_tiles_behind_hole_unack env h rc _ cks dname cl F a b seg hab
     hseg ha k (min (b + seg) F.length) _ (by omega) (Nat.min_le_right _ _)
     (by rcases hk with h1 | h1; exact Or.inr h1; exact Or.inl h1) hR3
   have hend : min (min (b + seg) F.length + k * seg) F.length = F.length := by omega
@@ -577,10 +591,10 @@ theorem C13_run_to_wait (env : Env) (d0 : DestSt) (h : Hdr) (rc : RemoteCfg) (ck
   have hfa : d4.faults = d0.faults := by
     rw [hfa4]; show d2.faults = d0.faults
     rw [hfa2]; rfl
-  obtain ⟨heof, hW⟩ := C13_eof_call_waits env d4 dname (C03.holeFile F a b F.length) crc rc _ cks h hR4 ha hmis hchk
+  obtain ⟨heof, hW⟩ := C13_eof_call_waits env d4 dname (C03.holeFile F a b F.length) crc rc _ cks h cl hR4 ha hmis hchk
     (by rw [hfa]; exact hfh1) (by rw [hfa]; exact hfh2)
   rw [hlenG] at heof hW
-  refine ⟨_, d2, _, d4, _, hmd, hfeed, hgap, hfs, heof, hW, ?_, ?_, ?_⟩
+  refine ⟨_, d2, _, d4, _, hmd, hfeed, hgap, hfs, heof, hW, ?_, ?_, ?_, ?_⟩
   · intro q hq'
     simp only [afterEofWait]
     rw [hother4 q hq']
@@ -589,11 +603,14 @@ theorem C13_run_to_wait (env : Env) (d0 : DestSt) (h : Hdr) (rc : RemoteCfg) (ck
     simp [afterMd, Fs.C17.get_set_other _ _ _ _ hq']
   · simp only [afterEofWait, List.filter_append, hfin4]
     simp only [afterGapU, List.filter_append, hfin2]
-    have h1 : (afterMd env d0 h rc cks F.length sname dname msgs false).inds.filter isFinished =
+    have h1 : (afterMd env d0 h rc cks F.length sname dname msgs cl).inds.filter isFinished =
         d0.inds.filter isFinished := by simp [afterMd, isFinished]
     rw [h1]
     cases env.cfg.indSegRecv <;> cases env.cfg.indEofRecv <;> simp [isFinished]
   · simp [afterEofWait, hR4.hflts, hR4.hprog, hlenG]
+  · show d4.p.conf = _
+    rw [hcf4]; show d2.p.conf = _
+    rw [hcf2]; rfl
 
 /-- **Late data before the limit: the transfer completes (whole run).**  Unacknowledged mode, no
 closure.  The EOF overtakes one File Data PDU.  `times` are the expiries of the check timer that pass
@@ -601,7 +618,7 @@ while the PDU is still missing (fewer than the check limit); then the PDU arrive
 running; at the next expiry the verification succeeds: the file is byte-identical, the user gets one
 Transaction-Finished (No error, Data complete, File retained), the handler is idle; no Check limit
 fault; one (ignored) checksum failure per unsuccessful verification. -/
-theorem C13_late_data_completes (env : Env) (d0 : DestSt) (h : Hdr) (rc : RemoteCfg) (cks : Nat)
+theorem C13_late_data_completes (env : Env) (d0 : DestSt) (h : Hdr) (rc : RemoteCfg) (cks : Nat) (cl : Bool)
     (sname dname : String) (msgs : Option (List Msg)) (F crc : List UInt8)
     (cs1 : List (List UInt8)) (a b seg k : Nat) (times : List Nat) (tL tS : Nat)
     (ha : Admissible env rc h) (hchk : env.cfg.chkMs ≠ 0)
@@ -620,7 +637,7 @@ theorem C13_late_data_completes (env : Env) (d0 : DestSt) (h : Hdr) (rc : Remote
     (hrun : tL - C04.lastOr env.now times < env.cfg.chkMs) (hS : tS - C04.lastOr env.now times ≥ env.cfg.chkMs) :
     ∃ d5 d6 d7 d8,
       (∃ d1 d2 d3 d4,
-        stateMachine env (some (.md h false cks F.length (some sname) (some dname) msgs)) d0 = .ok () d1 ∧
+        stateMachine env (some (.md h cl cks F.length (some sname) (some dname) msgs)) d0 = .ok () d1 ∧
         feed env h cs1 0 d1 = some d2 ∧
         stateMachine env (some (.fd h b ((F.drop b).take seg))) d2 = .ok () d3 ∧
         C03.feedSeg env h F seg k (min (b + seg) F.length) d3 = some d4 ∧
@@ -629,25 +646,29 @@ theorem C13_late_data_completes (env : Env) (d0 : DestSt) (h : Hdr) (rc : Remote
       checkRounds env.cfg times d5 = some d6 ∧
       stateMachine ⟨env.cfg, tL⟩ (some (.fd h a ((F.drop a).take (b - a)))) d6 = .ok () d7 ∧
       stateMachine ⟨env.cfg, tS⟩ none d7 = .ok () d8 ∧
-      d8.state = .idle ∧ d8.queue = [] ∧
+      d8.state = .idle ∧
+      d8.queue = (if cl then [mkFin ⟨.toSend, h.mode, h.crc, h.large, h.src, h.dst, h.seq⟩
+        ⟨ccNoError, dcComplete, fsRetained, none⟩] else []) ∧
       d8.fs.get dname = some (.file F) ∧ (∀ q, q ≠ dname → d8.fs.get q = d0.fs.get q) ∧
       d8.inds.filter isFinished = d0.inds.filter isFinished ++
         (if env.cfg.indFinished
           then [.finished (some ⟨h.src, h.seq⟩) ⟨ccNoError, dcComplete, fsRetained, none⟩] else []) ∧
       d8.flts = List.replicate (times.length + 1) ⟨fhIgnore, ⟨h.src, h.seq⟩, ccChecksumFailure, F.length⟩ := by
-  obtain ⟨d1, d2, d3, d4, d5, hmd, hfeed, hgap, hfs, heof, hW, hother5, hin5, hfl5⟩ :=
-    C13_run_to_wait env d0 h rc cks sname dname msgs F crc cs1 a b seg k ha hchk hidle hq hr hrej hfl hnd hok hfh1 hfh2
+  obtain ⟨d1, d2, d3, d4, d5, hmd, hfeed, hgap, hfs, heof, hW, hother5, hin5, hfl5, hconf5⟩ :=
+    C13_run_to_wait env d0 h rc cks cl sname dname msgs F crc cs1 a b seg k ha hchk hidle hq hr hrej hfl hnd hok hfh1 hfh2
       hcs1 hne1 hseg hb hbF hk hkend hmis
   have hlenG := C03.holeFile_length F a b F.length (by omega) (by omega) (Nat.le_refl _)
-  obtain ⟨d6, hrounds, hW6, hfs6, hin6, hfl6⟩ := C13_expiries_below_limit env.cfg dname (C03.holeFile F a b F.length)
-    crc rc ⟨h.src, h.seq⟩ cks hmis times d5 ⟨env.now, env.cfg.chkMs⟩ 0 hW hexp (by omega)
-  obtain ⟨hlate, hW7⟩ := C13_late_tile_call ⟨env.cfg, tL⟩ d6 dname F crc a b rc ⟨h.src, h.seq⟩ cks _ _ h hW6
+  obtain ⟨d6, hrounds, hW6, hfs6, hin6, hfl6, hcf6⟩ := C13_expiries_below_limit env.cfg dname (C03.holeFile F a b F.length)
+    crc rc ⟨h.src, h.seq⟩ cks cl hmis times d5 ⟨env.now, env.cfg.chkMs⟩ 0 hW hexp (by omega)
+  obtain ⟨hlate, hW7⟩ := C13_late_tile_call ⟨env.cfg, tL⟩ d6 dname F crc a b rc ⟨h.src, h.seq⟩ cks _ _ h cl hW6
     ⟨ha.hdir, ha.hdst, ha.hsrc, ha.hmode⟩ (by omega) (by omega)
     (by simp [Timer.timedOut]; exact hrun)
-  have hsucc := C13_expiry_success_call ⟨env.cfg, tS⟩ _ dname F crc rc ⟨h.src, h.seq⟩ cks _ _ hW7
+  have hsucc := C13_expiry_success_call ⟨env.cfg, tS⟩ _ dname F crc rc ⟨h.src, h.seq⟩ cks _ _ cl hW7
     (by simp [Timer.timedOut]; exact hS) hnull hcrc
   refine ⟨d5, d6, _, _, ⟨d1, d2, d3, d4, hmd, hfeed, hgap, hfs, heof⟩, hin5, hW.hbusy, hrounds, hlate, hsucc, rfl,
-    hW7.hqueue, ?_, ?_, ?_, ?_⟩
+    ?_, ?_, ?_, ?_, ?_⟩
+  · have hcf : d6.p.conf = ⟨.toSend, h.mode, h.crc, h.large, h.src, h.dst, h.seq⟩ := by rw [hcf6]; exact hconf5
+    cases cl <;> simp [afterSuccess, afterLate, fillP, hcf]
   · simp [afterSuccess, afterLate, Fs.C17.get_set_same]
   · intro q hq'
     simp only [afterSuccess, afterLate]
@@ -662,7 +683,7 @@ first `limit − 1` expiries (`times`) only count; the limit-th (`tX`) declares 
 the default handler cancels the transaction, the user is told (condition Check limit reached, Data
 incomplete), the handler is idle.  No Transaction-Finished indication before that; one (ignored)
 checksum failure per unsuccessful verification (the EOF call and each of the `limit` expiries). -/
-theorem C13_never_arrives_limit (env : Env) (d0 : DestSt) (h : Hdr) (rc : RemoteCfg) (cks : Nat)
+theorem C13_never_arrives_limit (env : Env) (d0 : DestSt) (h : Hdr) (rc : RemoteCfg) (cks : Nat) (cl : Bool)
     (sname dname : String) (msgs : Option (List Msg)) (F crc : List UInt8)
     (cs1 : List (List UInt8)) (a b seg k : Nat) (times : List Nat) (tX : Nat)
     (ha : Admissible env rc h) (hchk : env.cfg.chkMs ≠ 0)
@@ -680,7 +701,7 @@ theorem C13_never_arrives_limit (env : Env) (d0 : DestSt) (h : Hdr) (rc : Remote
     (hX : tX - C04.lastOr env.now times ≥ env.cfg.chkMs) :
     ∃ d5 d6 d8,
       (∃ d1 d2 d3 d4,
-        stateMachine env (some (.md h false cks F.length (some sname) (some dname) msgs)) d0 = .ok () d1 ∧
+        stateMachine env (some (.md h cl cks F.length (some sname) (some dname) msgs)) d0 = .ok () d1 ∧
         feed env h cs1 0 d1 = some d2 ∧
         stateMachine env (some (.fd h b ((F.drop b).take seg))) d2 = .ok () d3 ∧
         C03.feedSeg env h F seg k (min (b + seg) F.length) d3 = some d4 ∧
@@ -688,24 +709,28 @@ theorem C13_never_arrives_limit (env : Env) (d0 : DestSt) (h : Hdr) (rc : Remote
       checkRounds env.cfg times d5 = some d6 ∧
       d6.state = .busy ∧ d6.inds.filter isFinished = d0.inds.filter isFinished ∧
       stateMachine ⟨env.cfg, tX⟩ none d6 = .ok () d8 ∧
-      d8.state = .idle ∧ d8.queue = [] ∧
+      d8.state = .idle ∧
+      d8.queue = (if cl then [mkFin ⟨.toSend, h.mode, h.crc, h.large, h.src, h.dst, h.seq⟩ ⟨ccCheckLimit, dcIncomplete,
+        if rc.disp then fsDiscardedDeliberately else fsRetained, none⟩] else []) ∧
       d8.inds.filter isFinished = d0.inds.filter isFinished ++
         (if env.cfg.indFinished
           then [.finished (some ⟨h.src, h.seq⟩) ⟨ccCheckLimit, dcIncomplete,
             if rc.disp then fsDiscardedDeliberately else fsRetained, none⟩] else []) ∧
       d8.flts = List.replicate (rc.chkLim + 1) ⟨fhIgnore, ⟨h.src, h.seq⟩, ccChecksumFailure, F.length⟩ ++
         [⟨fhCancel, ⟨h.src, h.seq⟩, ccCheckLimit, F.length⟩] := by
-  obtain ⟨d1, d2, d3, d4, d5, hmd, hfeed, hgap, hfs, heof, hW, hother5, hin5, hfl5⟩ :=
-    C13_run_to_wait env d0 h rc cks sname dname msgs F crc cs1 a b seg k ha hchk hidle hq hr hrej hfl hnd hok hfh1 hfh2
+  obtain ⟨d1, d2, d3, d4, d5, hmd, hfeed, hgap, hfs, heof, hW, hother5, hin5, hfl5, hconf5⟩ :=
+    C13_run_to_wait env d0 h rc cks cl sname dname msgs F crc cs1 a b seg k ha hchk hidle hq hr hrej hfl hnd hok hfh1 hfh2
       hcs1 hne1 hseg hb hbF hk hkend hmis
   have hlenG := C03.holeFile_length F a b F.length (by omega) (by omega) (Nat.le_refl _)
-  obtain ⟨d6, hrounds, hW6, hfs6, hin6, hfl6⟩ := C13_expiries_below_limit env.cfg dname (C03.holeFile F a b F.length)
-    crc rc ⟨h.src, h.seq⟩ cks hmis times d5 ⟨env.now, env.cfg.chkMs⟩ 0 hW hexp (by omega)
-  have hlimit := C13_expiry_limit_call ⟨env.cfg, tX⟩ d6 dname _ crc rc ⟨h.src, h.seq⟩ cks _ _ hW6 hmis
+  obtain ⟨d6, hrounds, hW6, hfs6, hin6, hfl6, hcf6⟩ := C13_expiries_below_limit env.cfg dname (C03.holeFile F a b F.length)
+    crc rc ⟨h.src, h.seq⟩ cks cl hmis times d5 ⟨env.now, env.cfg.chkMs⟩ 0 hW hexp (by omega)
+  have hlimit := C13_expiry_limit_call ⟨env.cfg, tX⟩ d6 dname _ crc rc ⟨h.src, h.seq⟩ cks _ _ cl hW6 hmis
     (by simp [Timer.timedOut]; exact hX) (by omega)
-  refine ⟨d5, d6, _, ⟨d1, d2, d3, d4, hmd, hfeed, hgap, hfs, heof⟩, hrounds, hW6.hbusy, ?_, hlimit, rfl, hW6.hqueue,
+  refine ⟨d5, d6, _, ⟨d1, d2, d3, d4, hmd, hfeed, hgap, hfs, heof⟩, hrounds, hW6.hbusy, ?_, hlimit, rfl, ?_,
     ?_, ?_⟩
   · rw [hin6]; exact hin5
+  · have hcf : d6.p.conf = ⟨.toSend, h.mode, h.crc, h.large, h.src, h.dst, h.seq⟩ := by rw [hcf6]; exact hconf5
+    cases cl <;> simp [afterLimit, hcf]
   · simp only [afterLimit, List.filter_append, hin6, hin5]
     cases env.cfg.indFinished <;> simp [isFinished]
   · simp only [afterLimit, hfl6, hfl5, hW6.hprog, hlenG, ← hlim]
@@ -729,7 +754,7 @@ theorem mismatch : MismatchOf 3 (C03.holeFile F 0 2 F.length) [71, 11, 153, 244]
 /-- a 5-byte file in segments of 2; the first tile is late; check limit 3 (`rcD.chkLim`), check
 interval 1000: one expiry passes (1000), the tile arrives at 1500, the expiry at 2000 completes -/
 example : True := by
-  have h := C13_late_data_completes envD d0 hU rcD 3 "/a" "/b" none F [71, 11, 153, 244] [] 0 2 2 1 [1000] 1500 2000
+  have h := C13_late_data_completes envD d0 hU rcD 3 false "/a" "/b" none F [71, 11, 153, 244] [] 0 2 2 1 [1000] 1500 2000
     ⟨rfl, rfl, by decide, rfl⟩ (by decide) rfl rfl rfl rfl rfl (by decide)
     (Or.inl ⟨[9], rfl⟩) (by decide) (by decide) rfl (by simp) (by decide) rfl (by decide)
     (Or.inl (by decide)) (by decide) (by decide) (by decide +kernel) mismatch
@@ -738,11 +763,20 @@ example : True := by
 
 /-- the same transfer, the tile never arrives: limit 3, expiries at 1000, 2000 and 3000 -/
 example : True := by
-  have h := C13_never_arrives_limit envD d0 hU rcD 3 "/a" "/b" none F [71, 11, 153, 244] [] 0 2 2 1 [1000, 2000] 3000
+  have h := C13_never_arrives_limit envD d0 hU rcD 3 false "/a" "/b" none F [71, 11, 153, 244] [] 0 2 2 1 [1000, 2000] 3000
     ⟨rfl, rfl, by decide, rfl⟩ (by decide) rfl rfl rfl rfl rfl (by decide)
     (Or.inl ⟨[9], rfl⟩) (by decide) (by decide) rfl (by simp) (by decide) rfl (by decide)
     (Or.inl (by decide)) (by decide) mismatch
     (by simp [C04.Expiring, envD]) (by decide) (by decide)
+  trivial
+
+/-- the same late-data transfer with closure requested: the Finished PDU is queued at completion -/
+example : True := by
+  have h := C13_late_data_completes envD d0 hU rcD 3 true "/a" "/b" none F [71, 11, 153, 244] [] 0 2 2 1 [1000] 1500 2000
+    ⟨rfl, rfl, by decide, rfl⟩ (by decide) rfl rfl rfl rfl rfl (by decide)
+    (Or.inl ⟨[9], rfl⟩) (by decide) (by decide) rfl (by simp) (by decide) rfl (by decide)
+    (Or.inl (by decide)) (by decide) (by decide) (by decide +kernel) mismatch
+    (by simp [C04.Expiring, envD]) (by decide) (by decide) (by decide)
   trivial
 
 end Ex
